@@ -7,14 +7,39 @@ use vcommon::ident::is_ident;
 use vcommon::prng::{hash_bytes, Rng};
 use vcommon::report::{guard, run_parallel, Report, RunCfg};
 
-const ALPHA: [&str; 10] = ["a", "Z", "_", "7", "r", "#", ":", " ", "-", "é"];
+const ALPHA: [&str; 11] = ["a", "Z", "_", "7", "r", "#", ":", " ", "-", "é", "²"];
+const NA: u64 = 11;
 
 fn leak(s: String) -> &'static str {
     Box::leak(s.into_boxed_str())
 }
 
 fn check_segments(segs: &[&'static str], rep: &mut Report, what: &str) {
-    let res = guard(|| Path::from_segments(segs.iter().copied()));
+    // the same segments through iterators with an exact, an inexact and no size hint
+    let kind = (segs.len() + segs.first().map_or(0, |s| s.len())) % 3;
+    let res = match kind {
+        0 => guard(|| Path::from_segments(segs.iter().copied())),
+        1 => guard(|| Path::from_segments(segs.iter().copied().filter(|_| true))),
+        _ => guard(|| {
+            let mut it = segs.iter().copied();
+            Path::from_segments(std::iter::from_fn(move || it.next()))
+        }),
+    };
+    if segs.is_empty() {
+        // the empty list through every kind of iterator
+        for k in 0..3 {
+            let r = match k {
+                0 => guard(|| Path::from_segments(Vec::<&'static str>::new())),
+                1 => guard(|| Path::from_segments("".split("::").filter(|s| !s.is_empty()))),
+                _ => guard(|| Path::from_segments(std::iter::from_fn(|| None::<&'static str>))),
+            };
+            match r {
+                Ok(Err(PathError::MissingSegments)) => rep.count("empty_iterators", 1),
+                other => rep.violation("C18/empty-accepted", format!("an empty segment iterator (kind {}) gives {:?}", k, other.map(|x| x.map(|p| p.segments))), json!({"iterator_kind": k})),
+            }
+        }
+    }
+    rep.count(["iter_exact_hint", "iter_inexact_hint", "iter_no_hint"][kind], 1);
     let expect: Result<(), PathError> = if segs.is_empty() {
         Err(PathError::MissingSegments)
     } else if let Some(p) = segs.iter().position(|s| !is_ident(s)) {
@@ -207,7 +232,7 @@ fn enumerate(prefix: &str, depth: usize, f: &mut dyn FnMut(&str)) {
 pub fn pool() -> Vec<&'static str> {
     vec![
         "", "a", "Z", "_", "r", "r#", "r#a", "r#r", "r#_", "r#7", "r#r#a", "r#r#", "r##a", "#r", "a#", "7", "7a", "a7", "_7", "__",
-        "é", "aé", "a b", " a", "a ", "a-b", ":", "::", "a::b", ":a", "a:", "foo", "Bar_9", "r#type", "self", "crate", "Self", "\0", "a\0", "r#é",
+        "é", "aé", "x²", "a１", "_½", "v٣", "a b", " a", "a ", "a-b", ":", "::", "a::b", ":a", "a:", "foo", "Bar_9", "r#type", "self", "crate", "Self", "\0", "a\0", "r#é",
     ]
 }
 
@@ -217,13 +242,13 @@ pub fn run(a: &Args) -> Report {
     let maxlen = a.u("maxlen", if thorough { 7 } else { 5 }) as usize;
     let mut rep = Report::default();
     // 1. exhaustive single segments: case = 2-symbol prefix (100 cases) + case 100 = strings shorter than 2
-    let cfg = RunCfg { threads: a.u("threads", 16) as usize, cases: 101, first_case: 0, max_secs: a.f("max-secs", 3600.0) };
+    let cfg = RunCfg { threads: a.u("threads", 16) as usize, cases: NA * NA + 1, first_case: 0, max_secs: a.f("max-secs", 3600.0), progress: None };
     let r1 = run_parallel(&cfg, |i, rep| {
         let mut arena: Vec<String> = Vec::new();
-        if i == 100 {
+        if i == NA * NA {
             enumerate("", 1, &mut |s| arena.push(s.to_string()));
         } else {
-            let p = format!("{}{}", ALPHA[(i / 10) as usize], ALPHA[(i % 10) as usize]);
+            let p = format!("{}{}", ALPHA[(i / NA) as usize], ALPHA[(i % NA) as usize]);
             enumerate(&p, maxlen - 2, &mut |s| arena.push(s.to_string()));
         }
         // one leaked arena per case
@@ -243,7 +268,7 @@ pub fn run(a: &Args) -> Report {
     // 2. all segment lists of length <= 3 over the pool
     let pool = pool();
     let n = pool.len() as u64;
-    let cfg2 = RunCfg { threads: a.u("threads", 16) as usize, cases: n + 1, first_case: 0, max_secs: a.f("max-secs", 3600.0) };
+    let cfg2 = RunCfg { threads: a.u("threads", 16) as usize, cases: n + 1, first_case: 0, max_secs: a.f("max-secs", 3600.0), progress: None };
     let r2 = run_parallel(&cfg2, |i, rep| {
         if i == n {
             check_segments(&[], rep, "list");
@@ -274,7 +299,7 @@ pub fn run(a: &Args) -> Report {
         modules.push(extra);
     }
     let nm = modules.len() as u64;
-    let cfg3 = RunCfg { threads: a.u("threads", 16) as usize, cases: nm, first_case: 0, max_secs: a.f("max-secs", 3600.0) };
+    let cfg3 = RunCfg { threads: a.u("threads", 16) as usize, cases: nm, first_case: 0, max_secs: a.f("max-secs", 3600.0), progress: None };
     let r3 = run_parallel(&cfg3, |i, rep| {
         let m = modules[i as usize];
         for id in &pool {
@@ -288,7 +313,7 @@ pub fn run(a: &Args) -> Report {
     // 4. new_with_replace with random distinct-key tables (seeded)
     let cases = a.u("cases", if thorough { 2_000_000 } else { 200_000 });
     let good: Vec<&'static str> = modules.iter().copied().filter(|m| !m.contains(":::")).collect();
-    let cfg4 = RunCfg { threads: a.u("threads", 16) as usize, cases, first_case: 0, max_secs: a.f("max-secs", 3600.0) };
+    let cfg4 = RunCfg { threads: a.u("threads", 16) as usize, cases, first_case: 0, max_secs: a.f("max-secs", 3600.0), progress: None };
     let r4 = run_parallel(&cfg4, |i, rep| {
         let mut rng = Rng::derive(seed ^ 0x18, i);
         let m = *rng.pick(&good);
